@@ -7,7 +7,14 @@
 //!   seq_lru --lru-depth 6 --wl-depth 9 --capacities 0,3,4
 //!   seq_lru --replay replays/C18/....json
 
+use std::cell::RefCell;
+use std::os::unix::fs::FileExt;
+use std::path::{Path, PathBuf};
+use std::sync::OnceLock;
+use std::sync::atomic::{AtomicUsize, Ordering};
+
 use manimc::lru_ref::{self, LruOp};
+use manimc::wire;
 use manimc::wl_ref::{self, WlOp};
 use vcore::{Args, Report, Value, Violation, json, stable_hash};
 
@@ -117,7 +124,35 @@ struct WlCtx {
     slots: usize,
 }
 
-fn wl_evaluate(ctx: &WlCtx, ops: &[WlOp], rep: &mut Report) {
+static AHEAD_DIR: OnceLock<PathBuf> = OnceLock::new();
+static AHEAD_N: AtomicUsize = AtomicUsize::new(0);
+thread_local! {
+    static AHEAD: RefCell<Option<std::fs::File>> = const { RefCell::new(None) };
+}
+
+/// Write the case about to run into this thread's slot (fixed-size record at offset 0), so that
+/// the parent can name it if the subject aborts the process.
+fn write_ahead(pre: u64, ops: &[WlOp]) {
+    let Some(dir) = AHEAD_DIR.get() else { return };
+    AHEAD.with(|a| {
+        let mut a = a.borrow_mut();
+        if a.is_none() {
+            let n = AHEAD_N.fetch_add(1, Ordering::Relaxed);
+            *a = std::fs::File::create(dir.join(format!("ahead-{n}"))).ok();
+        }
+        if let Some(f) = a.as_ref() {
+            let mut rec = json!({"pre": pre, "ops": ops.iter().map(|o| o.to_json()).collect::<Vec<_>>()}).to_string();
+            while rec.len() < 1024 {
+                rec.push(' ');
+            }
+            let _ = f.write_at(rec.as_bytes(), 0);
+        }
+    });
+}
+
+/// Returns true when the sequence has a finding.
+fn wl_evaluate(ctx: &WlCtx, ops: &[WlOp], rep: &mut Report) -> bool {
+    write_ahead(ctx.pre, ops);
     let out = wl_ref::run(ctx.pre, ops);
     rep.evaluations += 1;
     rep.transitions += out.calls;
@@ -146,8 +181,27 @@ fn wl_evaluate(ctx: &WlCtx, ops: &[WlOp], rep: &mut Report) {
         let again = wl_ref::run(ctx.pre, ops);
         if again.finding.as_ref().map(|g| &g.signature) != Some(&f.signature) {
             rep.count("non_reproducible_findings", 1);
-            return;
+            return false;
         }
+        // notify_head calls that do not matter are dropped from the recorded case
+        let mut ops: Vec<WlOp> = ops.to_vec();
+        let mut f = f;
+        let mut i = 0;
+        while i < ops.len() {
+            if ops[i] == WlOp::NotifyHead {
+                let mut cand = ops.clone();
+                cand.remove(i);
+                if let Some(g) = wl_ref::run(ctx.pre, &cand).finding {
+                    if g.signature == f.signature {
+                        ops = cand;
+                        f = g;
+                        continue;
+                    }
+                }
+            }
+            i += 1;
+        }
+        let ops = &ops[..];
         rep.violation(Violation {
             property: PROP.into(),
             signature: f.signature.clone(),
@@ -165,12 +219,19 @@ fn wl_evaluate(ctx: &WlCtx, ops: &[WlOp], rep: &mut Report) {
                 "ops": ops.iter().map(|o| o.to_json()).collect::<Vec<_>>(),
             }),
         });
+        return true;
     }
+    false
 }
 
 fn wl_explore(ctx: &WlCtx, ops: &mut Vec<WlOp>, rep: &mut Report) {
-    wl_evaluate(ctx, ops, rep);
+    let bad = wl_evaluate(ctx, ops, rep);
     if ops.len() >= ctx.depth {
+        return;
+    }
+    if bad {
+        // a list that already misbehaves is not driven further
+        rep.count("waitlist_subtrees_not_extended_below_a_finding", 1);
         return;
     }
     for o in wl_ref::enabled(ops, ctx.max_guards) {
@@ -193,6 +254,175 @@ fn set_slots(slots: usize) -> usize {
     }
 }
 
+/// First index 0, and first indices chosen so that the four guards straddle the wrap-around.
+fn pres_for(slots: usize) -> Vec<u64> {
+    vec![0, slots as u64 - 2, 2 * slots as u64 - 1]
+}
+
+fn mk_report() -> Report {
+    let mut r = Report::new("seq_lru", PROP);
+    r.max_samples = 3;
+    r
+}
+
+/// All enabled sequences for every first index, on `threads` threads, in this process.
+fn wl_phase(slots: usize, pres: &[u64], wl_depth: usize, max_guards: usize, threads: usize) -> Report {
+    let mut work = vec![];
+    for &pre in pres.iter() {
+        if wl_depth < 3 {
+            work.push(Work::Wl { pre, prefix: vec![], subtree: true });
+            continue;
+        }
+        work.push(Work::Wl { pre, prefix: vec![], subtree: false });
+        for a in wl_ref::enabled(&[], max_guards) {
+            work.push(Work::Wl { pre, prefix: vec![a], subtree: false });
+            for b in wl_ref::enabled(&[a], max_guards) {
+                work.push(Work::Wl { pre, prefix: vec![a, b], subtree: false });
+                for c in wl_ref::enabled(&[a, b], max_guards) {
+                    work.push(Work::Wl { pre, prefix: vec![a, b, c], subtree: true });
+                }
+            }
+        }
+    }
+    vcore::parallel(work, threads, mk_report, |w, rep| {
+        if let Work::Wl { pre, prefix, subtree } = w {
+            let ctx = WlCtx { depth: wl_depth, max_guards, pre: *pre, slots };
+            let mut ops = prefix.clone();
+            if !*subtree {
+                wl_evaluate(&ctx, &ops, rep);
+            } else {
+                wl_explore(&ctx, &mut ops, rep);
+            }
+        }
+    })
+}
+
+/// Run one sequence in a child; Some(stderr) if the child was killed by a signal (abort).
+fn wl_one_in_child(want_slots: usize, pre: u64, ops: &[WlOp]) -> Option<String> {
+    let exe = std::env::current_exe().expect("current_exe");
+    let out = std::process::Command::new(exe)
+        .arg("--child-wl-one")
+        .arg("--slots")
+        .arg(want_slots.to_string())
+        .arg("--pre")
+        .arg(pre.to_string())
+        .arg("--ops")
+        .arg(Value::Array(ops.iter().map(|o| o.to_json()).collect()).to_string())
+        .output()
+        .expect("spawn child");
+    if out.status.code().is_none() {
+        Some(String::from_utf8_lossy(&out.stderr).to_string())
+    } else {
+        None
+    }
+}
+
+fn abort_violation(want_slots: usize, slots: usize, pre: u64, ops: &[WlOp], stderr: &str) -> Violation {
+    let last = ops.last().map(|o| o.show()).unwrap_or_default();
+    let kind = last.split('(').next().unwrap_or("").to_string();
+    let msg: Vec<&str> = stderr.lines().filter(|l| !l.trim().is_empty()).take(6).collect();
+    Violation {
+        property: PROP.into(),
+        signature: format!("c18:waitlist:process-abort:after-{kind}"),
+        detail: format!(
+            "{slots} slots, first index {pre}, sequence {:?}: the process was aborted (a panic while unwinding from a panic); stderr: {}",
+            ops.iter().map(|o| o.show()).collect::<Vec<_>>(),
+            msg.join(" / ")
+        ),
+        case: json!({
+            "kind": "waitlist-abort",
+            "slots": want_slots,
+            "pre": pre,
+            "ops": ops.iter().map(|o| o.to_json()).collect::<Vec<_>>(),
+        }),
+    }
+}
+
+fn wl_phase_in_child(want_slots: usize, slots: usize, pres: &[u64], wl_depth: usize, max_guards: usize, threads: usize) -> Report {
+    let scratch = vcore::Scratch::new("wl");
+    let out = scratch.sub("wire.json");
+    let exe = std::env::current_exe().expect("current_exe");
+    let st = std::process::Command::new(exe)
+        .arg("--child-wl")
+        .arg("--slots")
+        .arg(want_slots.to_string())
+        .arg("--wl-depth")
+        .arg(wl_depth.to_string())
+        .arg("--guards")
+        .arg(max_guards.to_string())
+        .arg("--threads")
+        .arg(threads.to_string())
+        .arg("--ahead-dir")
+        .arg(&scratch.path)
+        .arg("--out")
+        .arg(&out)
+        .stderr(std::process::Stdio::null())
+        .status()
+        .expect("spawn child");
+    if st.success() {
+        let v: Value = serde_json::from_str(&std::fs::read_to_string(&out).expect("child report")).expect("child report json");
+        return wire::from_wire("seq_lru", PROP, &v);
+    }
+    // the child died: find the sequence that kills it among the ones that were running
+    let mut rep = mk_report();
+    rep.cap(&format!("the wait-list phase with {slots} slots aborted the child process ({st}); its exploration is incomplete"));
+    let mut found = false;
+    let _ = pres;
+    for e in std::fs::read_dir(&scratch.path).expect("ahead dir").flatten() {
+        if !e.file_name().to_string_lossy().starts_with("ahead-") {
+            continue;
+        }
+        let Ok(text) = std::fs::read_to_string(e.path()) else { continue };
+        let Ok(v) = serde_json::from_str::<Value>(text.trim()) else { continue };
+        let pre = v["pre"].as_u64().unwrap_or(0);
+        let ops: Vec<WlOp> = v["ops"].as_array().map(|a| a.iter().map(WlOp::from_json).collect()).unwrap_or_default();
+        // shortest aborting prefix
+        for n in 1..=ops.len() {
+            rep.evaluations += 1;
+            if let Some(stderr) = wl_one_in_child(want_slots, pre, &ops[..n]) {
+                // replay before report
+                if wl_one_in_child(want_slots, pre, &ops[..n]).is_some() {
+                    rep.violation(abort_violation(want_slots, slots, pre, &ops[..n], &stderr));
+                    found = true;
+                }
+                break;
+            }
+        }
+    }
+    if !found {
+        eprintln!("seq_lru: the wait-list child died ({st}) and no running sequence reproduces it: machinery error");
+        std::process::exit(2);
+    }
+    rep
+}
+
+fn child_wl(args: &Args) -> ! {
+    vcore::quiet_panics();
+    let want = args.usize("slots", 0);
+    let slots = set_slots(want);
+    let _ = AHEAD_DIR.set(PathBuf::from(args.get("ahead-dir").expect("--ahead-dir")));
+    let rep = wl_phase(slots, &pres_for(slots), args.usize("wl-depth", 8), args.usize("guards", 4), args.threads());
+    std::fs::write(Path::new(args.get("out").expect("--out")), wire::to_wire(&rep).to_string()).expect("write wire report");
+    std::process::exit(0);
+}
+
+fn child_wl_one(args: &Args) -> ! {
+    set_slots(args.usize("slots", 0));
+    let ops: Vec<WlOp> = serde_json::from_str::<Value>(args.get("ops").expect("--ops"))
+        .expect("ops json")
+        .as_array()
+        .expect("ops array")
+        .iter()
+        .map(WlOp::from_json)
+        .collect();
+    let out = wl_ref::run(args.u64("pre", 0), &ops);
+    match out.finding {
+        Some(f) => println!("finding {}: {}", f.signature, f.detail),
+        None => println!("no finding"),
+    }
+    std::process::exit(0);
+}
+
 /////////////////////////////////////////////// main //////////////////////////////////////////////
 
 enum Work {
@@ -202,6 +432,12 @@ enum Work {
 
 fn main() {
     let args = Args::parse();
+    if args.flag("child-wl-one") {
+        child_wl_one(&args);
+    }
+    if args.flag("child-wl") {
+        child_wl(&args);
+    }
     vcore::quiet_panics();
     if let Some(rf) = args.replay_case() {
         replay(&rf);
@@ -221,11 +457,7 @@ fn main() {
     let sizes = [1usize, 3];
     let alphabet = lru_ref::alphabet(&keys, &sizes);
     let threads = args.threads();
-    let mk = || {
-        let mut r = Report::new("seq_lru", PROP);
-        r.max_samples = 3;
-        r
-    };
+    let mk = mk_report;
 
     // LRU: partition by capacity and the first two operations
     let mut work = vec![];
@@ -256,42 +488,20 @@ fn main() {
         }
     });
 
-    // wait list: the slot count is a process-wide hook, so one phase per slot count
+    // wait list: the slot count is a process-wide hook, so one phase per slot count; each phase runs
+    // in a child process because a broken wait list can abort the process (its guards' Drop
+    // panics again while unwinding once the list's mutex is poisoned)
     let mut wl_phases = vec![];
     let slot_plan: Vec<usize> = if cfg!(rescrv_blue_verif) { vec![0, 4] } else { vec![0] };
+    total.max_samples = 6;
     for want in slot_plan {
         let slots = set_slots(want);
-        // first index 0, and first indices chosen so that the four guards straddle the wrap-around
-        let pres: Vec<u64> = vec![0, slots as u64 - 2, 2 * slots as u64 - 1];
-        let mut work = vec![];
-        for &pre in pres.iter() {
-            if wl_depth < 3 {
-                work.push(Work::Wl { pre, prefix: vec![], subtree: true });
-                continue;
-            }
-            work.push(Work::Wl { pre, prefix: vec![], subtree: false });
-            for a in wl_ref::enabled(&[], max_guards) {
-                work.push(Work::Wl { pre, prefix: vec![a], subtree: false });
-                for b in wl_ref::enabled(&[a], max_guards) {
-                    work.push(Work::Wl { pre, prefix: vec![a, b], subtree: false });
-                    for c in wl_ref::enabled(&[a, b], max_guards) {
-                        work.push(Work::Wl { pre, prefix: vec![a, b, c], subtree: true });
-                    }
-                }
-            }
-        }
-        let part = vcore::parallel(work, threads, mk, |w, rep| {
-            if let Work::Wl { pre, prefix, subtree } = w {
-                let ctx = WlCtx { depth: wl_depth, max_guards, pre: *pre, slots };
-                let mut ops = prefix.clone();
-                if !*subtree {
-                    wl_evaluate(&ctx, &ops, rep);
-                } else {
-                    wl_explore(&ctx, &mut ops, rep);
-                }
-            }
-        });
-        total.max_samples = 6;
+        let pres = pres_for(slots);
+        let part = if args.flag("wl-in-process") {
+            wl_phase(slots, &pres, wl_depth, max_guards, threads)
+        } else {
+            wl_phase_in_child(want, slots, &pres, wl_depth, max_guards, threads)
+        };
         total.merge(part);
         wl_phases.push(json!({"slots": slots, "first_indices": pres}));
     }
@@ -362,6 +572,22 @@ fn replay(rf: &Value) -> ! {
             match out.finding {
                 Some(f) => (Some(f.signature), f.detail),
                 None => (None, String::new()),
+            }
+        }
+        "waitlist-abort" => {
+            let slots = case["slots"].as_u64().unwrap_or(0) as usize;
+            let pre = case["pre"].as_u64().unwrap_or(0);
+            let ops: Vec<WlOp> = case["ops"].as_array().expect("ops").iter().map(WlOp::from_json).collect();
+            println!("replaying in a child process (slot hook {slots}, first index {pre}): {:?}; expected: the process survives", ops.iter().map(|o| o.show()).collect::<Vec<_>>());
+            match wl_one_in_child(slots, pre, &ops) {
+                Some(stderr) => {
+                    println!("observed: the child was killed by a signal; stderr: {}", stderr.trim());
+                    (Some(want.to_string()), "process abort".to_string())
+                }
+                None => {
+                    println!("observed: the child survived");
+                    (None, String::new())
+                }
             }
         }
         k => panic!("unknown case kind {k}"),
